@@ -347,6 +347,9 @@ FAMILIES = [
     [[[1], "a"], [[1.0], "a"], [[], []], [None]],
     [[{"b": 1}], [{"b": 1.0}], [{"b": 1, "c": None}], [{}]],
     [[0, False], [False, 0], [0.0, -0.0], [-0.0, 0.0]],
+    # equal mappings inside lists, written in different key orders (== and hash must not depend on the order)
+    [[{"b": 1, "c": 2}], [{"c": 2, "b": 1}], [{"b": 1, "c": 2}, {"c": 3, "b": 1}], [{"c": 2, "b": 1}, {"b": 1, "c": 3}]],
+    [[{"u": 64, "act": "relu", "p": None}], [{"act": "relu", "p": None, "u": 64}], [{"p": None, "u": 64, "act": "relu"}]],
 ]
 UNHASHABLE = [[{"b": [1]}], [{"b": {"c": 1}}], [1, [{"k": []}]]]
 
@@ -484,9 +487,15 @@ def random_case(rng):
     n = rng.choice([0, 1, 2, 2, 3, 3, 4, 4, 5, 6, 7, 8])
     sps = make_corpus(rng, n)
     n = len(sps)
-    return {"sps": sps, "fresh": rng.random() < 0.5,
+    case = {"sps": sps, "fresh": rng.random() < 0.5,
             "queries": make_queries(rng, n, rng.choice([2, 3, 4])),
             "diffs": make_diffs(rng, n, rng.choice([1, 2, 3]))}
+    if n >= 2 and rng.random() < 0.25:
+        # jobs that existed and are gone when the questions are asked (their state points are still in the session /
+        # persistent cache; the selection may still name them): they are no longer jobs of the project
+        case["gone"] = sorted(rng.sample(range(n), rng.choice([1, 1, 2]) if n > 2 else 1))
+        case["ucache"] = rng.random() < 0.5
+    return case
 
 
 def search(rng, deadline):
@@ -508,7 +517,10 @@ def _drop_job(case, i):
             sel = [[k, fix(j)] if k != "bogus" else [k, j] for k, j in q["sel"] if k == "bogus" or j != i]
             queries.append({"sel": sel, "excl": q["excl"]})
     diffs = [[fix(j) for j in d if j != i] for d in case["diffs"]]
-    return dict(case, sps=sps, queries=queries, diffs=diffs)
+    out = dict(case, sps=sps, queries=queries, diffs=diffs)
+    if case.get("gone"):
+        out["gone"] = [fix(j) for j in case["gone"] if j != i]
+    return out
 
 
 def shrink(case):
@@ -579,9 +591,15 @@ def run_case(case, ctx):
         if len(set(ids)) != len(ids):
             raise RuntimeError("generator produced two state points with one id")
         by_id = dict(zip(ids, sps))
+        gone = set(case.get("gone") or [])
+        if gone:
+            if case.get("ucache"):
+                project.update_cache()
+            for i in sorted(gone):
+                jobs[i].remove()
         if case.get("fresh"):
             project = signac.Project(d)
-            jobs = [project.open_job(id=i) for i in ids]
+            jobs = [project.open_job(id=i) if n not in gone else project.open_job(sps[n]) for n, i in enumerate(ids)]
         listing = [n for n in os.listdir(project.workspace) if n in by_id]
 
         for qn, q in enumerate(case["queries"]):
@@ -609,7 +627,7 @@ def run_case(case, ctx):
                 got, err = None, e
                 line = "EXC:" + exc_name(e)
             order = _RECORDED[-1] if _RECORDED else None
-            if order is None or sorted(order) != sorted(wanted):
+            if order is None or sorted(order) != sorted(w for w in wanted if w in listing):
                 order = [i for i in listing if i in wanted]
             model.append("schema %d %d %s" % (1 if q["excl"] else 0, len(order),
                                               job_line([(i, by_id[i]) for i in order])))
@@ -623,6 +641,7 @@ def run_case(case, ctx):
             tags.append("selected=%d" % min(len(sel_sps), 8))
 
         for dn, idxs in enumerate(case["diffs"]):
+            idxs = [i for i in idxs if i not in gone]
             dj = [jobs[i] for i in idxs]
             dids = [ids[i] for i in idxs]
             dsps = [sps[i] for i in idxs]
@@ -664,6 +683,8 @@ def run_case(case, ctx):
         tags.append("neg-hash-clash")
     if case.get("fresh"):
         tags.append("fresh-handle")
+    if case.get("gone"):
+        tags.append("removed-jobs-in-cache" + ("+persistent" if case.get("ucache") else ""))
     key = None
     if sps:
         key = json.dumps([sorted(canon_text(sp) for sp in sps), case["queries"], case["diffs"]], sort_keys=True)
